@@ -26,7 +26,7 @@ LEVEL_TEXT = (
 )
 LEVEL_NOTE = (
     "Trusted: ordered io_callbacks deliver the call sequence (checked for internal consistency); termination is not part of C06 - "
-    "histories exceeding 20000 attempts are ended by the harness and counted inconclusive."
+    "histories exceeding 3000 attempts are ended by the harness and counted inconclusive."
 )
 RULE = (
     "history = (controller kind+parameters, clip, error profile (6 pieces), exponent, dt0, eps, 5 checkpoint placements relative to probe-run "
@@ -35,7 +35,7 @@ RULE = (
 ASSUMPTIONS = ["x64; the scripted solver advances t exactly as a real one (t + dt)"]
 REQUIRED_LABELS = ["clip", "noclip", "ctrl:integral", "ctrl:pi", "branch:at_t1", "branch:beyond", "rejection", "clip_taken", "ckpt_skipped_without_step"]
 MAX_INCONCLUSIVE = 0.3
-ATTEMPT_BUDGET = 20000
+ATTEMPT_BUDGET = 3000
 NUM_CKPT = 5
 PIECES = 6
 
@@ -140,6 +140,8 @@ def _runner(kind, clip, num_save):
                 idx = jnp.searchsorted(breaks, previous.t, side="right")
                 h_adm = values[idx]
                 ep = (h_adm / dt) ** p
+                # watchdog step (attempt budget exhausted, the scripted solver jumped): let the run end
+                ep = jnp.where(proposed.t - previous.t > 1e29, 1.0, ep)
                 jax.debug.callback(log.add("err"), previous.t, dt, ep, proposed.t, ordered=True)
                 return ep, state
 
@@ -181,7 +183,7 @@ def _history(draw):
         p=draw(st.floats(0.7, 1.3)),
         dt0=draw(gen.log10_uniform(-3.0, 1.0)),
         eps=draw(st.sampled_from([1e-8, 1e-12, 1e-5])),
-        safety=draw(st.floats(0.8, 1.0)),
+        safety=draw(st.floats(0.8, 0.99)),
         factor_min=draw(st.floats(0.05, 0.9)),
         factor_max=draw(st.floats(1.1, 20.0)),
         ki=draw(st.floats(0.05, 0.9)),
